@@ -31,7 +31,7 @@ LEVEL = 'exploration'
 LEVEL_TEXT = ('Real ProxyProtocol/V1/V2 handlers run on a scripted socket whose recv_into returns short counts '
               '(whole, always-1, cut at/around the header end, seeded random). Workload: boundary and random '
               'well-formed v1/v2 headers (TCP4/TCP6/UDP/UNIX/UNKNOWN/UNSPEC/LOCAL, TLV 0..300) x payloads, every '
-              'single-byte substitution (12 values quick / 256 thorough), insertion (12 values) and deletion at every offset and every truncation of a '
+              'single-byte substitution (12 values quick, +12 str-class-boundary values on the v1 headers / 256 thorough), insertion (12 values) and deletion at every offset and every truncation of a '
               'corpus of 12 valid headers, enumerated bad fields (ports, addresses, families, separators, line '
               'ends, v2 version/command/family/protocol nibbles, lengths below the family minimum), over-long '
               'lines and random garbage; each stream through the dedicated parser, the other parser and the '
@@ -322,6 +322,9 @@ PAYLOADS = [b'', b'EHLO x\r\nrest', b'\r\n\r\n', b'PROXY TCP4 9.9.9.9 8.8.8.8 1 
 TLVLENS = {'quick': [1, 2, 3, 7, 16, 255, 256, 300], 'thorough': list(range(1, 301))}
 BYTEVALS = {'quick': [0x00, 0x2b, 0x5f, 0x09, 0xff, 0x20, 0x0d, 0x0a, 0x30, 0x2d, 0x39, 0x80],
             'thorough': list(range(256))}
+# quick only, v1 corpus: bytes that change class once a line is handled as str instead of bytes -- digit-like but
+# not int()-able (superscripts, fraction), NBSP / NEL / FS-US / VT / FF (str.isspace, str.split, int() stripping)
+STR_CLASS_VALS = [0xb2, 0xb3, 0xb9, 0xbc, 0xa0, 0x85, 0x1c, 0x1d, 0x1e, 0x1f, 0x0b, 0x0c]
 
 
 def r_ip4(rnd):
@@ -368,14 +371,18 @@ def corpus():
 
 BAD_PORTS = [b'+1', b'-0', b'-1', b'1_0', b'6_5', b'\t1', b'1\t', b'\x0b1', b'1\x0c', b'1\n', b'\n1', b'01', b'00',
              b'0065535', b'65536', b'99999', b'100000', b'4294967297', b'', b'1e3', b'0x10', b'\xef\xbc\x91',
-             b'1.0', b'1\x00', b'\x001', b'a', b'1a', b'1\r']
+             b'1.0', b'1\x00', b'\x001', b'a', b'1a', b'1\r',
+             # digit-like / space-like only under str semantics (latin-1 or utf-8 decoded)
+             b'\xb2', b'\xb3', b'\xb9', b'1\xb2', b'\xb92', b'\xbc', b'1\xa0', b'\xa01', b'1\x85', b'\x851', b'1\x1c',
+             b'\x1d1', b'1\x1e2', b'\x1f', b'\xc2\xb2', b'\xd9\xa1', b'\xe2\x81\xb4', b'\xe2\x80\x831']
 BAD_IP4 = [b'1.2.3', b'1.2.3.4.5', b'256.1.1.1', b'1.2.3.04', b'01.2.3.4', b'001.002.003.004', b'1.2.3.4\x00',
            b'\x001.2.3.4', b'1..2.3', b'a.b.c.d', b'1.2.3.-4', b'+1.2.3.4', b'1.2.3.4/32', b'0x1.2.3.4',
            b'1.2.3.\xef\xbc\x94', b'', b'1.2.3.4.', b'.1.2.3.4', b'1.2.3.4\t', b'1.2.3.1000', b'16909060', b'1.2.3',
-           b'::1', b'1.2.3.4\n']
+           b'::1', b'1.2.3.4\n', b'1.2.3.\xb2', b'\xb9.2.3.4', b'1.2.3.4\xa0', b'\xa01.2.3.4', b'1.2.3.4\x85',
+           b'1.2.3.4\x1c', b'1.2.3.\xd9\xa1', b'1\xbc.2.3.4']
 BAD_IP6 = [b':::', b'1::2::3', b'gggg::', b'1:2:3:4:5:6:7:8:9', b'12345::', b'::ffff:1.2.3.4', b'::1%eth0',
            b'::1\x00', b'\x00::1', b'[::1]', b'1:2:3:4:5:6:7', b'', b':', b'1.2.3.4', b'::1/128', b'1:2:3:4:5:6:7:8:',
-           b':1:2:3:4:5:6:7:8', b'::1\t', b'1:2:3:4:5:6:1.2.3.4', b'::01.2.3.4', b'0000:0000:0000:0000:0000:0000:0000:00001']
+           b':1:2:3:4:5:6:7:8', b'::1\t', b'::\xb9', b'::1\xa0', b'\x85::1', b'::1\x1c', b'::\xd9\xa1', b'1:2:3:4:5:6:1.2.3.4', b'::01.2.3.4', b'0000:0000:0000:0000:0000:0000:0000:00001']
 
 
 def gen_all(tier, seed):
@@ -453,8 +460,10 @@ def gen_all(tier, seed):
     yield case('open', v2hdr(1, 0x31, blkux(b'/a\x00b', b'\x00abstract')))
 
     # ---- malformed: every single-byte substitution and every truncation of the corpus
-    vals = BYTEVALS[tier]
     for name, hdr in corpus():
+        vals = BYTEVALS[tier]
+        if tier == 'quick' and name.startswith('v1-'):
+            vals = vals + STR_CLASS_VALS
         for off in range(len(hdr)):
             for v in vals:
                 if hdr[off] == v:
